@@ -135,7 +135,8 @@ theorem C17_resume (c : SysCfg) (hc : c.cached = true) (hnr : c.NoReact) (hcap :
       cbs2.map (·.ev) = cbs1.map (·.ev) ∧ cbs1.length = 1 := by
   intro resumed
   -- the old handle
-  obtain ⟨cbs1, bus1, hobs1, hev1, _, _⟩ := C05_cached c hc hnr s i h hh hl hm hcb hexp hpk hcad hcrc hrx
+  obtain ⟨cbs1, bus1, hobs1, hev1, _, _⟩ := C05_cached c hc hnr s i h hh hl hm hcb hexp
+    (by have := (s.world.chip.lora.rd 0x13).toNat_lt; omega) hcad hcrc hrx
   -- handle creation: success, fresh handle, chip untouched
   have hcr := C17_create c hc s [] []
   have hres : versionRead [] [] s.world.chip = .ok (be32 [0x12]) := by
@@ -156,7 +157,7 @@ theorem C17_resume (c : SysCfg) (hc : c.cached = true) (hnr : c.NoReact) (hcap :
     show ((s.step c (.api .create [] [])).1.step c (.api (.rxSetCallback true) [] [])).1.handle = _
     rw [hh2, hh2']
   obtain ⟨cbs2, bus2, hobs2, hev2, _, _⟩ := C05_cached c hc hnr resumed i2 _ hhR (by rw [hchipR]; exact hl)
-    rfl rfl rfl (by simp [freshHandle]; exact hcap) (by rw [hchipR]; exact hcad) (by rw [hchipR]; exact hcrc)
+    rfl rfl rfl (by have := (resumed.world.chip.lora.rd 0x13).toNat_lt; simp [freshHandle]; omega) (by rw [hchipR]; exact hcad) (by rw [hchipR]; exact hcrc)
     (by rw [hchipR]; exact hrx)
   refine ⟨cbs1, bus1, cbs2, bus2, hobs1, hobs2, ?_, ?_⟩
   · rw [hev2, hev1, hchipR]
